@@ -382,8 +382,30 @@ def run(*, tier, seed, jobs, progress, opts):
             fst += s
             ftr += t
             fex += e
-    cov = {'states': st + fst, 'transitions': tr + ftr,
-           'traces_validated_against_impl': ex + fex,
+    # E7: FileLock between real threads/processes (own event loop each),
+    # scheduled at every filesystem call
+    from . import c20mt
+    from ..worlds import scratch_parent
+    mt = {'scenarios': 0, 'executions': 0, 'by_preemptions': {},
+          'distinct_outcomes': 0, 'max_decision_points': 0}
+    with scratch_parent():
+        with mp.get_context('fork').Pool(njobs) as pool:
+            for r in pool.imap_unordered(c20mt.task, c20mt.tasks(tier),
+                                         chunksize=1):
+                if 'error' in r:
+                    raise RuntimeError(f'E7 harness error: {r}')
+                mt['scenarios'] += 1
+                mt['executions'] += r['executions']
+                mt['distinct_outcomes'] += r['outcomes']
+                mt['max_decision_points'] = max(mt['max_decision_points'],
+                                                r['max_points'])
+                for k, n in r['by_preemptions'].items():
+                    mt['by_preemptions'][str(k)] = \
+                        mt['by_preemptions'].get(str(k), 0) + n
+                violations += r['violations']
+    cov = {'states': st + fst, 'transitions': tr + ftr + mt['executions'],
+           'traces_validated_against_impl': ex + fex + mt['executions'],
+           'filelock_threads': mt,
            'asyncio_rwlock': {'programs': len(progs),
                               'with_cancellation': len(progs),
                               'states': st, 'transitions': tr,
@@ -397,12 +419,18 @@ def run(*, tier, seed, jobs, progress, opts):
            'rule': ('every program of 2..N tasks x 1..2 acquisitions in '
                     '{R,W} containing a writer; every order of the external '
                     'events (task start, in-section resume) and cancellation '
-                    'of any one started task at any point; state-key dedup')}
+                    'of any one started task at any point; state-key dedup; '
+                    'E7: 2-3 processes (own loop and thread each) doing a '
+                    'locked read-modify-write of a counter file, bodies that '
+                    'raise, a second acquisition, readers, a fresh foreign '
+                    'lock file and an expired one; every schedule of their '
+                    'filesystem calls with <= 2 (thorough 3) preemptions')}
     return finish(PROP, tier=tier, seed=seed, level='model_checking',
                   coverage=cov, violations=violations, t0=t0, assumptions=[
-                      'asyncio read-write lock and FileLock on the virtual '
-                      'event loop; the threading read-write lock is not '
-                      'explored by this check',
+                      'asyncio read-write lock on the virtual event loop; '
+                      'FileLock on the virtual loop and, under E7, between '
+                      'threads/processes at filesystem-call granularity; the '
+                      'threading read-write lock is not explored',
                       'FileLock holders hold for less than the expiry; '
                       'FileLock readers only wait for absence (reader/writer '
                       'overlap is not claimed by the property)'])
@@ -410,6 +438,18 @@ def run(*, tier, seed, jobs, progress, opts):
 
 def replay(rec):
     r = rec['replay']
+    if r.get('mt'):
+        from . import c20mt
+        from ..worlds import scratch_parent
+        with scratch_parent():
+            raises = tuple(tuple(x) for x in r['raises'])
+            ex, info = c20mt.run_schedule(tuple(r['kinds']), r['prefix'],
+                                          r['stale'], raises)
+            viols = c20mt.judge(tuple(r['kinds']), r['stale'], raises, ex,
+                                info)
+        for v in viols:
+            print('VIOLATION-REPLAYED', v['rule'], v['site'], v['msg'])
+        return 1 if viols else 0
     prog = tuple(tuple(x) for x in r['program'])
     print('program', prog, 'events', r['events'])
     return 0
